@@ -10,6 +10,13 @@ open PromqlVerif
 queries of one engine is what `engine.New` sets up (regenerated on every run) -/
 theorem no_package_variable_is_written : Gen.packageVarWrites = [] := by decide
 
+/-- **no method of an engine assigns a field of the engine or takes the address of one** (regenerated:
+every method in engine/*.go whose receiver is an engine type): everything a query works with is
+built from copies made when the query is created, so two queries on one engine share nothing
+mutable through the engine value -/
+theorem engine_value_is_read_only_after_construction :
+    Gen.engineFieldWrites = [] ∧ Gen.engineFieldAddrs = [] := by decide
+
 /-- the package-level variables are the dispatch tables, sentinel errors and optimizer lists -/
 theorem package_variables_are_tables :
     Gen.packageVars.all (fun v => ["binary.operations", "binary.vectorBinaryOperations", "function.Funcs",
